@@ -236,12 +236,17 @@ def resolveOp (f : Forest) (j : J) : Option Op :=
           let path := if isList then (match path.head? with
               | some (.i n) => [Key.i n]
               | _ => [Key.i 0]) else path
-          if path.isEmpty || acc.1.any (fun x => x.1 == path) then acc else
+          -- paths of one rebind are prefix-independent (a later pair never addresses what an
+          -- earlier pair has just written)
+          if path.isEmpty || acc.1.any (fun x => x.1.isPrefixOf path || path.isPrefixOf x.1) then acc else
           let r := resolveVE cx acc.2 val
           let dest := match tt.query path.dropLast with
-            | some (.node pm _) => pm.id
-            | _ => t
-          (acc.1 ++ [(path, ins, if ins then dropOwn f cx dest r.1 else r.1)], r.2)
+            | some (.node pm _) => some pm
+            | _ => none
+          -- an Insertion only means something where the written container is a list
+          let ins := ins && (match dest with | some pm => pm.kind == .list | none => false)
+          let destId := match dest with | some pm => pm.id | none => t
+          (acc.1 ++ [(path, ins, if ins then dropOwn f cx destId r.1 else r.1)], r.2)
         | _ => acc) ([], [])
       let skip := match j.get? "skip" with | some (.bool b) => some b | _ => none
       some (.rebind t pairs skip)
